@@ -7,6 +7,7 @@ RULE = ('rrect correspondence: rr_all / rr_styled on shapes at positions on both
         'rrect search p_rr_translate on the implementation: translate == translate_mut, only the position changes, points() shifted, contains() shifted over '
         'box+2, styled bounding box shifted (non-empty), draw() image (both target kinds) and pixels() sequence shifted; offsets small, across the axes, up to +-2000.')
 PARTIAL = []
+ASSUMPTIONS = ['rrect: see the C06 rrect part (styled_ok range; class K06_rrect_fill_outside_stroke excluded where stated)']
 
 
 def cases(tier, rng):
